@@ -127,6 +127,14 @@ def check(run, prog, tier):
     reboot_before_entries(cx, "S3", "announcer")
     atomic_notifications(cx, "S3", "stopped/unsubscribed")
 
+    # ------------------------------------------------------------------ S6 nothing decodable is dropped on the way in
+    # (the acceptance half of C03's filter table: every decodable SD notification reaches the reboot check and the
+    # entry dispatch, whatever endpoint state the receive path consults)
+    from . import C03
+    from ..sym import enum_members as _em
+    with run.part("S6 receive path"):
+        C03._guards(run, prog, _em(prog, "header.SOMEIPSDEntryType"), accept_rule="S6")
+
     # ------------------------------------------------------------------ S5 reboot evidence is recognised exactly
     # (a restarted peer that is not recognised keeps stale subscriptions / offers alive for ever with infinite TTLs)
     from . import C07
